@@ -180,6 +180,20 @@ class Interp:
         self._globs[modname] = g
         return g
 
+    def set_override(self, modname, name, value):
+        """(re)bind a global name as seen by interpreted code of one repo module (e.g. `io` in utils -> shim with a
+        small DEFAULT_BUFFER_SIZE); takes effect immediately, also for already lifted functions"""
+        self.overrides.setdefault(modname, {})[name] = value
+        self.globs_for(modname)["__symx_overrides__"][name] = value
+
+    def clear_override(self, modname, name):
+        self.overrides.get(modname, {}).pop(name, None)
+        ov = self.globs_for(modname)["__symx_overrides__"]
+        if name in DEFAULT_OVERRIDES:
+            ov[name] = DEFAULT_OVERRIDES[name]
+        else:
+            ov.pop(name, None)
+
     def lift_function(self, f):
         """real python function object -> IFunc (located by line number in the module's current source)"""
         if f in self.lifted:
